@@ -16,11 +16,15 @@ CFG = dict(
          "text model, and the round trip checked directly when the format can express the instant; mutated date-time "
          "strings through the rule list (exact) and arbitrary strings (totality). Time::parse: valid HH:MM:SS[.f] strings "
          "(exact) and arbitrary strings (totality). Non-trivial = distinct non-empty inputs.",
-    theorem_hint="Props/C18.v: C18_total, C18_wellformed, C18_datetime_roundtrip_partial",
-    level_text="Proof: theorems of Props/C18.v (axiom-free) about the Gallina model of the repaired TimeDelta::parse scanner "
-               "(for every string: no panic, fuel never exhausted; for every well-formed term list whose partial sums stay in "
-               "range: Ok of the sums) and about the text model of the default date-time format (render then parse gives the "
-               "instant back). The models are tied to the code by the differential run described in `rule`.",
+    theorem_hint="Props/C18.v: C18_total, C18_wellformed, C18_datetime_roundtrip_partial, C18_datetime_roundtrip_listed_partial",
+    level_text="Proof: 6 theorems of Props/C18.v (axiom-free) about the Gallina model of the repaired TimeDelta::parse scanner "
+               "(for every string: no panic, fuel never exhausted; for every well-formed term list whose numbers, products and "
+               "running sums stay in range: Ok of the sums) and about the date-time text model (calendar inverse law for every day "
+               "number; default format rendered then parsed, explicitly and through the rule list, returns the instant; each of "
+               "the 11 listed formats parsed back explicitly returns every instant it can express; years 0000..9999, 4 units). "
+               "The round trip through the rule list for the 10 non-default formats and years outside 0..9999 are "
+               "correspondence-only (C18_datetime_roundtrip_full_statement is a Definition). The models are tied to the code by "
+               "the differential run described in `rule`.",
     level_note="Trusted: Coq kernel; the hand-written scanner model (character positions instead of byte offsets); the models of "
                "i64::from_str, chrono Duration range checks, chrono format/parse_from_str for %Y %m %d %H %M %S %f, literals and "
                "spaces; the harness and comparator. chrono's NaiveTime::from_str (Time::parse) is only exercised, not modelled.",
